@@ -17,6 +17,17 @@ theorem cur_le_limit {s : State} (h : Reach s) : s.cur ≤ s.maxConc := cur_le_m
 
 theorem executing_le_limit {s : State} (h : Reach s) : s.nExec ≤ s.maxConc := executing_le_maxConc h
 
+/-- the re-check after taking the slot (reserve() looks at the limit again): a dispatcher keeps the slot only if
+    the value it took is within the limit in effect at the re-check, and has to give it back otherwise — this is
+    what stops the event loop of a previous run that comes back with an old limit (fix f0c7ad4) -/
+theorem kept_slot_within_limit {s s' : State} {g v : Nat} (h : step s (.ldConcR g v) = .ok s') (hh : s'.ph g = .holding) :
+    s.tk g ≤ s.conc := Res.holding_within_limit h hh
+theorem slot_over_limit_given_back {s s' : State} {g v : Nat} (h : step s (.ldConcR g v) = .ok s') (hg : s.conc < s.tk g) :
+    s'.ph g = .mustRelease := Res.recheck_gives_back h hg
+/-- every slot taken is a real one and never exceeds the largest limit the worker ever had -/
+theorem taken_bounds {s : State} (hr : Reach s) (g : Nat) (hp : s.ph g ≠ .idle) : 1 ≤ s.tk g ∧ s.tk g ≤ s.maxConc :=
+  Res.taken_bounds hr g hp
+
 /-- the limit itself: withSafeConcurrency with Go's int → uint32 conversion -/
 theorem safe_concurrency_positive (cpus : BitVec 32) (c : BitVec 64) (hc : cpus ≠ 0)
     (h : c.toInt % 2 ^ 32 ≠ 0 ∨ c.toInt < 1) : Config.withSafeConcurrency cpus c ≠ 0 := Config.safe_conc_pos cpus c hc h
